@@ -1189,6 +1189,11 @@ class AnalyzeAndStore:
                            if len(analyze_spec(context.file_path, context.file_content, context.language, config)) > 0
                            else old.self._storage._cache.db))
 
+    def ensures_store_and_analyzer_stay_in_place(self, old):
+        # (the frame of the two optional fields: analysing a file never drops or creates the store / the analyzer)
+        return (self._storage is None) == (old.self._storage is None) \
+            and (self._file_analyzer is None) == (old.self._file_analyzer is None)
+
     def ensures_store_untouched_when_not_analysable(self, context, old):
         return (context.file_path is not None and context.file_content is not None
                 and old.self._file_analyzer is not None and old.self._storage is not None) or (
